@@ -744,7 +744,14 @@ def _validation(ctx):
                 break
         if fired:
             g, res = fired
-            if g.exc != 'RuntimeError':
+            modes = [cl for cl in g.clauses if U.is_mode_clause(cl)]
+            nts = [_num_types(cl, other) for cl in modes]
+            if any(nt is None for nt in nts):
+                o.undecided(f, g.raise_node, g.raise_node, "the division guard is restricted by a type / None test the rule does not understand")
+            elif any(not {'int', 'float'} <= nt for nt in nts):
+                o.refute(f, g.raise_node, g.raise_node, "the division guard only applies to " +
+                         '/'.join(sorted(set.intersection(*nts))) + " operands: both the int 0 and the float 0.0 must be rejected")
+            elif g.exc != 'RuntimeError':
                 o.refute(f, g.raise_node, g.raise_node, f"division by the number zero is rejected with {g.exc}, expected RuntimeError")
             elif res[-1] or res[1]:
                 o.refute(f, g.raise_node, g.raise_node, "the division guard also rejects non-zero numbers")
@@ -880,6 +887,38 @@ def _nonneg(ctx):
             return ('bad', f"negative `{src(X)[:60]}` is filtered out silently: no RuntimeError is raised on that branch", cl[0][0])
         return None
 
+    def prove_guarded(f, stmt, X, gs, ctor):
+        """X >= 0 at stmt because a guard `X < 0 -> raise` (possibly inside a helper validator) is evaluated before"""
+        cfg = cfg_of(f)
+        sn = cfg.node_of(stmt) or cfg.node_containing(stmt)
+        for g in gs:
+            bound = set()
+            for t, _ in g.binders:
+                bound |= names_in(t)
+            if bound & names_in(X):
+                continue
+            for cl in g.clauses:
+                hit = [U.sign_atom(a, p) for a, p in cl if U.sign_atom(a, p) is not None and same(U.sign_atom(a, p)[0], X)]
+                if not hit:
+                    continue
+                if len(cl) > 1 or any(not U.is_mode_clause(c, names_in(X)) for c in g.clauses if c is not cl):
+                    return ('unk', "the value check is part of a larger condition", g.raise_node)
+                op = hit[0][1]
+                if op == '<=':
+                    return ('bad', f"`{src(X)[:50]}` equal to 0 is rejected (`<= 0`): zero units are a legal definition", g.raise_node)
+                if op != '<':
+                    continue
+                if g.exc != 'RuntimeError':
+                    return ('bad', f"negative `{src(X)[:50]}` is rejected with {g.exc}, expected RuntimeError", g.raise_node)
+                an = g.dom
+                if an is not None and sn is not None and cfg.dominates(an, sn):
+                    return 'ok'
+                if ctor and an is not None and sn is not None and cfg.dominates(sn, an) and \
+                        [(id(t), p) for t, p in U.live_conditions(cfg, an, True)] == [(id(t), p) for t, p in U.live_conditions(cfg, sn, True)]:
+                    return 'ok'
+                return ('bad', f"the `< 0` check of `{src(X)[:50]}` does not come before the store on every path", g.anchor)
+        return None
+
     def prove_all(f, stmt, D, gs, ctor):
         """every value of mapping D is >= 0 at stmt"""
         cfg = cfg_of(f)
@@ -907,7 +946,7 @@ def _nonneg(ctx):
                     if an is not None and sn is not None and cfg.dominates(an, sn):
                         return 'ok'
                     if ctor and an is not None and sn is not None and cfg.dominates(sn, an) and \
-                            [(id(t), p) for t, p in cfg.conditions(an)] == [(id(t), p) for t, p in cfg.conditions(sn)]:
+                            [(id(t), p) for t, p in U.live_conditions(cfg, an, True)] == [(id(t), p) for t, p in U.live_conditions(cfg, sn, True)]:
                         return 'ok'
                     return ('bad', f"the `< 0` check of `{src(D)}` does not come before the store on every path: "
                                    f"state is changed before / without validation", g.anchor)
@@ -958,6 +997,8 @@ def _nonneg(ctx):
                                     verdicts.append((('bad', f"the negative constant {k} is stored as a unit value", lf), '', lf))
                                 continue
                             r = prove_path(f, stmt, lf, gs)
+                            if r is None:
+                                r = prove_guarded(f, stmt, lf, gs, ctor)
                             if r is None:
                                 D = _elem_of(lf, binds)
                                 if D is not None:
@@ -1454,6 +1495,10 @@ def _search(ctx):
         l, op, r = c
         if _name(l, 'max_days'):
             l, op, r = r, U._FLIP[op], l
+        if isinstance(l, ast.Name) and isinstance(r, ast.BinOp) and isinstance(r.op, (ast.Add, ast.Sub, ast.Mult, ast.FloorDiv, ast.Div)) \
+                and U.mentions(r, 'max_days') and (facts.const_num(r.left) is not None or facts.const_num(r.right) is not None):
+            o.refute(f, loop, loop.test, f"the horizon is `{src(r)}` instead of max_days")
+            return
         if not (isinstance(l, ast.Name) and _name(r, 'max_days')):
             o.undecided(f, loop, loop.test, "loop test does not compare a counter with max_days")
             return
